@@ -33,7 +33,9 @@ def _case(draw):
     outs = draw(sc.outcomes(n, 0.45))
     workers = draw(st.sampled_from([1, 2, 2, 3, 4]))
     scheds = [draw(sc.schedules(max_len=100)) for _ in range(3)]
-    return {'n': n, 'edges': edges, 'outcomes': outs, 'workers': workers, 'scheds': scheds}
+    case = {'n': n, 'edges': edges, 'outcomes': outs, 'workers': workers, 'scheds': scheds}
+    case.update(draw(sc.extras(n)))
+    return case
 
 
 def strategy(tier):
@@ -127,6 +129,7 @@ def _classify(case, out):
 
 def run_case(case):
     out = Outcome()
+    out.labels.extend(sc.shape_labels(case))
     _classify(case, out)
     out.key = repr((case['n'], case['edges'], case['outcomes']))
     if 'sched' in case and case['sched'][0] == 'dfs':
